@@ -109,5 +109,15 @@ OtherPush(b) ==
   /\ UNCHANGED <<commits, br, rt, head, local>>
   /\ Log([a |-> "otherpush", b |-> b, oids |-> PtrOids(Anc(br[b], commits), commits)])
 
+\* environment: somebody else deleted branch b on the remote and the server then garbage-collected what
+\* no remote ref reaches any more; this clone has not fetched since, its remote-tracking ref is stale
+OtherDelete(b) ==
+  /\ rr[b] # NoCommit /\ rt[b] = rr[b]
+  /\ rr' = [rr EXCEPT ![b] = NoCommit]
+  /\ everRemote' = ReachSet({rr'[x] : x \in Branches}, commits)
+  /\ server' = server \cap PtrOids(everRemote', commits)
+  /\ UNCHANGED <<commits, br, rt, head, local>>
+  /\ Log([a |-> "otherdelete", b |-> b, gone |-> server \ server'])
+
 RemoteComplete == PtrOids(everRemote, commits) \subseteq server
 =============================================================================
